@@ -1,22 +1,25 @@
 """C15 - Grid orthogon decomposition finds exactly the single-trunk decompositions.
 
-Correspondence: 0/1 matrices (exhaustive for small shapes, random up to 10x10:
-single-trunk shapes, perturbed ones, holes, disconnected patterns, staircases,
-iid noise, ragged rows) go through the real `Strop`; `is_strop` and the
-rectangles of every instance (in the order `rectangles()` yields them) are
-compared exactly with the Gallina model (`Strop/Strop.v`) by vm_compute.
-Vertex lists of random simple orthogonal single-trunk polygons, in both
-orientations, go through `strop_decomposition` (compared exactly with the
-Gallina model `Strop/Polygon.v`: the returned [cx, cy, w, h] list must be the
-rectangle list of one of the model's instances), are loaded as a module and
-`create_stog` is called (direct oracle).  `is_point_inside_polygon` is
-compared with the model's even-odd rule on orthogonal and on slanted (also
-self-intersecting) vertex lists, at cell centres, vertices, edge points and
-generic points.
+Correspondence: 0/1 matrices (exhaustive for small shapes, random up to 10x10, LARGE grids built
+structurally with sides up to 40 / 70 and thin shapes with arms of 63..257 cells, matrices spelled as
+text with every separator str.split accepts) go through the real `Strop`; `is_strop` and the
+rectangles of every instance (in the order `rectangles()` yields them) are compared exactly with the
+Gallina model (`Strop/Strop.v`, `Strop/Text.v`) by vm_compute.
+Simple orthogonal polygons - random single-trunk ones and polygons traced from grid shapes, in every
+input form `strop_decomposition` accepts (Point with floats / ints, array rows, 2-D arrays of
+float64 / float32 / int64 / int32, mixed; both orientations, every start vertex, open / closed;
+dyadic, integer, decimal coordinates; negative, straddling 0, a corner exactly at (-1,-1), (0,0) ...
+listed last or first; large offsets) - are compared exactly with the Gallina model
+(`Strop/Polygon.v`, `Strop/PolygonForms.v`: the returned [cx, cy, w, h] list must be the rectangle
+list of one of the model's instances), are loaded as a module and `create_stog` is called (direct
+oracle).  `is_point_inside_polygon` is compared with the model's even-odd rule on orthogonal and on
+slanted (also self-intersecting) vertex lists, at cell centres, vertices, edge points and generic points.
 
-Direct oracle (independent of the implementation's method): brute force over
-every trunk rectangle for the existence of a decomposition; partition and
-abutment check of every offered instance; shoelace area of the polygon."""
+Direct oracle (independent of the implementation's method): existence of a decomposition by a
+polynomial test over row bands (cross-checked on small grids against the brute force over every
+trunk rectangle); partition and abutment check of every offered instance; for polygons shoelace
+area, sides on vertex coordinates, partition and abutment in grid cells, netlist loading +
+create_stog with the trunk first."""
 import itertools
 from fractions import Fraction as F
 
@@ -33,11 +36,20 @@ ASSUMPTIONS = [
     "the iteration order of the Python sets of candidate trunks is unspecified: instances are compared after sorting "
     "by trunk (rows.low, rows.high, columns.low, columns.high); the rectangles of each instance are compared in order",
     "polygon level: strop_decomposition and is_point_inside_polygon are compared exactly with the model Strop/Polygon.v "
-    "on dyadic coordinates (vertices on multiples of 1/4; slanted edges only between y levels a, a+h, a+2h with h a power "
-    "of two) so that every binary64 midpoint, difference, product and quotient is exact; the instance strop_decomposition "
-    "returns is the first in Python set order, so its output must equal the rectangle list of ONE of the model's instances; "
-    "netlist loading + create_stog: direct oracle only",
-    "the completeness theorem is a finite sweep: all 0/1 matrices of every shape with at most the stated number of cells",
+    "on dyadic / integer coordinates (slanted edges only between y levels a, a+h, a+2h with h a power of two; float32 "
+    "arrays only with mantissas that fit) so that every binary64 / binary32 midpoint, difference, product and quotient is "
+    "exact; on decimal coordinates the model computes with the exact values of the binary64 inputs (cells, instances and "
+    "rectangle order are not affected by rounding) and the four numbers of each rectangle are compared up to 2^-40; the "
+    "instance strop_decomposition returns is the first in Python set order, so its output must equal the rectangle list of "
+    "ONE of the model's instances; netlist loading + create_stog: direct oracle only",
+    "the netlist reader refuses negative numbers: a decomposition reaching below 0 is moved by a whole number of units "
+    "before it is loaded (exact for dyadic / integer coordinates; decimal polygons with negative coordinates are not loaded)",
+    "decimal polygons keep sides >= 0.3 and coordinates below 128, so binary64 rounding (a few 1e-14) stays below the "
+    "tolerance the netlist reader derives from the smallest side (1e-12 x side)",
+    "texts that are not a 0/1 grid (other characters, ragged rows, no row) are outside the property: compared with the "
+    "model only",
+    "the exhaustive sweep theorem is a finite sweep: all 0/1 matrices of every shape with at most the stated number of cells "
+    "(completeness for every size is C15_strop_iff)",
 ]
 
 
@@ -295,9 +307,9 @@ SPECIAL = [9, 10, 15, 16, 17, 31, 32, 33]
 MAXSIDE = 40
 
 
-def _reach(rng, room):
+def _reach(rng, room, special=None):
     """Length of the longest branch on a side: 0, short, or one of the threshold lengths that fit."""
-    fit = [s for s in SPECIAL if s <= room]
+    fit = [s for s in (special or SPECIAL) if s <= room]
     k = rng.random()
     if k < 0.2 or room <= 0:
         return 0
@@ -343,13 +355,13 @@ def _profile(rng, n, reach, style):
     return hs
 
 
-def gen_large_matrix(rng, MAXSIDE=MAXSIDE):
+def gen_large_matrix(rng, MAXSIDE=MAXSIDE, special=None):
     """A single-trunk shape with sides up to MAXSIDE (40): trunk + four side profiles, then possibly a
     perturbation (near miss).  Returns (matrix, description)."""
-    nN = _reach(rng, MAXSIDE - 6)
-    nS = _reach(rng, MAXSIDE - 1 - nN)
-    nW = _reach(rng, MAXSIDE - 6)
-    nE = _reach(rng, MAXSIDE - 1 - nW)
+    nN = _reach(rng, MAXSIDE - 6, special)
+    nS = _reach(rng, MAXSIDE - 1 - nN, special)
+    nW = _reach(rng, MAXSIDE - 6, special)
+    nE = _reach(rng, MAXSIDE - 1 - nW, special)
     th = rng.choice([1, 1, 2, 3, 5, 9, 16, 17, 33])
     tw = rng.choice([1, 1, 2, 3, 5, 9, 16, 17, 33])
     th = max(1, min(th, MAXSIDE - nN - nS))
@@ -417,6 +429,64 @@ def gen_large_matrix(rng, MAXSIDE=MAXSIDE):
         i, j = rng.choice(zeros)
         m[i][j] = 1
     return m, f"large/{style}/{pert}"
+
+
+LONG = [63, 64, 65, 100, 127, 128, 129, 255, 256, 257]
+
+
+def gen_long_case(rng):
+    """Thin shapes with one very long arm (63 .. 257 cells; the next size thresholds): an L / T / I with a trunk of
+    at most 3 x 3 cells, the long arm on one side, short arms (at most 5) elsewhere; left alone, the tip or an inner
+    cell of the long arm removed, or a cell added beside it."""
+    L = rng.choice(LONG)
+    th, tw = rng.choice([1, 1, 2, 3]), rng.choice([1, 1, 2, 3])
+    short = lambda: rng.choice([0, 0, 1, 2, 5])
+    nN, nS, nW, nE = L, rng.choice([0, 0, 1, 16, 33]), short(), short()
+    R, C = nN + th + nS, nW + tw + nE
+    r0, c0 = nN, nW
+    m = [[0] * C for _ in range(R)]
+    for i in range(r0, r0 + th):
+        for j in range(c0, c0 + tw):
+            m[i][j] = 1
+    a = rng.randrange(c0, c0 + tw)
+    b = rng.randrange(a, c0 + tw)
+    for j in range(a, b + 1):                # the long arm (north), 1 .. tw wide
+        for i in range(0, r0):
+            m[i][j] = 1
+    for j in range(c0, c0 + tw):
+        if rng.random() < 0.7:
+            for i in range(r0 + th, r0 + th + rng.choice([nS, nS, max(0, nS - 1)])):
+                m[i][j] = 1
+    for i in range(r0, r0 + th):
+        if rng.random() < 0.7:
+            for j in range(c0 - nW, c0):
+                m[i][j] = 1
+        if rng.random() < 0.7:
+            for j in range(c0 + tw, c0 + tw + nE):
+                m[i][j] = 1
+    pert = rng.choice(["none", "none", "tip", "hole", "beside"])
+    if pert == "tip":
+        m[0][a] = 0
+    elif pert == "hole":
+        m[rng.randrange(1, r0)][rng.randrange(a, b + 1)] = 0
+    elif pert == "beside" and C > 1:
+        i = rng.randrange(0, r0)
+        j = a - 1 if a > 0 and (b == C - 1 or rng.random() < 0.5) else min(C - 1, b + 1)
+        m[i][j] = 1
+    k = rng.randrange(4)                     # the four orientations
+    if k & 1:
+        m = m[::-1]
+    if k & 2:
+        m = [list(col) for col in zip(*m)]
+    return {"kind": "m", "gen": f"large/long{L}/{pert}", "rows": to_rows(m)}
+
+
+def gen_huge_case(rng):
+    """The large generator with sides up to 70 and branch lengths 63, 64, 65."""
+    m, tag = gen_large_matrix(rng, 70, [63, 64, 65, 33, 17])
+    if rng.random() < 0.5:
+        m = [list(col) for col in zip(*m)]
+    return {"kind": "m", "gen": tag, "rows": to_rows(m)}
 
 
 def gen_large_case(rng):
@@ -1221,13 +1291,14 @@ def run(ctx, out, replay=None):
     rng = ctx.rng
     if quick:
         cheap = list(exhaustive_cases(12, 12)) + list(sampled_cases(rng, 6000, 12, 16))
-        nrand, npoly, ngpoly, nbig, nprobe, ninside, nlarge, ntext = 3000, 300, 500, 40, 8, 200, 400, 400
+        nrand, npoly, ngpoly, nbig, nprobe, ninside, nlarge, ntext, nhuge, nlong = 3000, 300, 500, 40, 8, 200, 400, 400, 16, 12
     else:
         cheap = list(exhaustive_cases(16, 16))
-        nrand, npoly, ngpoly, nbig, nprobe, ninside, nlarge, ntext = 40000, 3000, 5000, 400, 80, 3000, 5000, 5000
+        nrand, npoly, ngpoly, nbig, nprobe, ninside, nlarge, ntext, nhuge, nlong = 40000, 3000, 5000, 400, 80, 3000, 5000, 5000, 200, 120
     cheap += [gen_matrix_case(rng) for _ in range(nrand)]
     cheap += [gen_text_case(rng) for _ in range(ntext)]
     heavy = [gen_large_case(rng) for _ in range(nlarge)]
+    heavy += [gen_huge_case(rng) for _ in range(nhuge)] + [gen_long_case(rng) for _ in range(nlong)]
     heavy += [gen_poly_case(rng) for _ in range(npoly)]
     heavy += [gen_gpoly_case(rng) for _ in range(ngpoly)]
     heavy += [gen_gpoly_case(rng, big=True) for _ in range(nbig)]
